@@ -187,6 +187,7 @@ func Run(rc *core.RunCtx) {
 		cache = lru.New[*ast.QueryDocument](1 + t.Choose(3, "lrusize"))
 	}
 	u.OnCall = func(ctx context.Context, kind, path string) { mon.add(reqOf(ctx), kind, -1, path) }
+	u.KeyPrefix = func(ctx context.Context) string { return fmt.Sprintf("r%d:", reqOf(ctx)) }
 	v.SetBlobHook(nil)
 
 	var ex *executor.Executor
